@@ -56,6 +56,17 @@ CLAIMS['C08'] = dict(
     note='Trusted: clang 14 front end/CFG; the manual (doc/assembler-usage.md) as oracle for the tables; the table of documented domains in rules/c08.py transcribed from the manual.',
     ref='5 (C08), 4 (A2, A3)')
 
+CLAIMS['C12'] = dict(
+    technique='state-machine extraction by CFG specialisation per construct state, guarded-by queries, loop-index lint',
+    text=('Decides: the (state, event) relation extracted from the conditional-assembly handlers equals the documented '
+          'protocol (legal events make exactly the documented transition, every misplaced event reaches an error call, '
+          'every IF* pushes on all paths); the construct stack head is null-guarded; IfAsm is only narrowed by inner '
+          'constructs; label definition, macro/struct expansion and instruction decoding are guarded by IfAsm while the '
+          'conditional dispatcher is not; argument loops step once per iteration; every construct stack has an '
+          'end-of-pass balance check. Truth of individual conditions is not decided.'),
+    note='Trusted: clang 14 front end/CFG; the protocol table in rules/c12.py transcribed from the manual\'s description of IF/SWITCH constructs.',
+    ref='5 (C12), 4 (A12, A3)')
+
 NA_REASONS = {}
 
 
